@@ -131,11 +131,37 @@ func dumpValue(b *strings.Builder, v reflect.Value, depth int, seen map[uintptr]
 // slice (where the harness has put sentinels).
 func SnapshotFull(x any) string {
 	var b strings.Builder
-	snapFull(&b, x)
+	snapFull(&b, x, 0, map[uintptr]bool{})
 	return b.String()
 }
 
-func snapFull(b *strings.Builder, x any) {
+func snapFull(b *strings.Builder, x any, depth int, path map[uintptr]bool) {
+	if depth > 20000 {
+		b.WriteString("<excessively deep>")
+		return
+	}
+	switch c := x.(type) {
+	case []any:
+		if len(c) > 0 {
+			p := reflect.ValueOf(c).Pointer()
+			if path[p] {
+				b.WriteString("<cycle>")
+				return
+			}
+			path[p] = true
+			defer delete(path, p)
+		}
+	case map[string]any:
+		if len(c) > 0 {
+			p := reflect.ValueOf(c).Pointer()
+			if path[p] {
+				b.WriteString("<cycle>")
+				return
+			}
+			path[p] = true
+			defer delete(path, p)
+		}
+	}
 	switch x := x.(type) {
 	case []any:
 		if x == nil {
@@ -148,7 +174,7 @@ func snapFull(b *strings.Builder, x any) {
 			if i > 0 {
 				b.WriteString(",")
 			}
-			snapFull(b, e)
+			snapFull(b, e, depth+1, path)
 		}
 		b.WriteString("]")
 	case map[string]any:
@@ -167,7 +193,7 @@ func snapFull(b *strings.Builder, x any) {
 				b.WriteString(",")
 			}
 			fmt.Fprintf(b, "%q:", k)
-			snapFull(b, x[k])
+			snapFull(b, x[k], depth+1, path)
 		}
 		b.WriteString("}")
 	default:
